@@ -208,10 +208,39 @@ ADD = {
 }
 
 
+# clauses added by the third generation (evaluated rules, truth-table rules, typestate) -- DESIGN.md sections 2 (E11 II, E12), 3.x, 9
+ADD3 = {
+    "C02": "Model.refresh_inputs_arg binds all eight argument tables by name (evaluated on a stand-in model).",
+    "C03": "System.store_sparse_pattern evaluated with stand-in models: template == variable positions (zeros) + constant positions (values) + gy diagonal.",
+    "C04": "calc_h is interpreted for resumed runs too; a rejected step moves the clock back only if it was advanced for that attempt (CFG path or "
+           "typestate attribute set only by the advance helper) and re-advances before the retry; restore/acceptance of ImplicitIter.step decided on "
+           "truth tables of the enclosing conditions.",
+    "C05": "Accumulating initialisers (v_str_add) start from cleared arrays on every initialisation (whole-array clear on every path of TDS.init to System.init).",
+    "C06": "One do_switch call hands a model to switch_action at most once; the schedule dict is created where it is filled, in sorted order; the event "
+           "pointer is re-assigned after every rebuild of the schedule before it is read.",
+    "C11": "Model.alter / GroupBase.alter / ModelData.as_dict evaluated over the kinds of altered / exported object with symbolic value and coefficient.",
+    "C13": "NumParam.add corrections are independent of the numeric representation (int/float/NumPy scalar); system-level quantities set by the case "
+           "readers must be carried by the native formats (open finding: xlsx/json do not).",
+    "C14": "init()/init_resume() dispatch decided on the truth table of the enclosing conditions.",
+    "C16": "CCS triplet mapping and the linsolve switch decided by evaluation / truth table instead of statement patterns.",
+    "C17": "run(cli=True) with its multi-case runners evaluated over outcome classes (single, pool, worker processes in batches, file not found): exit "
+           "code non-zero iff a case failed; every success flag the property lists (busted, test_ok) is consulted with a refusing branch on every path to "
+           "the dependent work of TDS.run and EIG; the operand of the stability criterion is established by TDS.init whenever the criterion is enabled.",
+    "C19": "GroupBase.get_next_idx, DeviceFinder.find_or_add and ModelData.add evaluated over registries with collisions / rejecting parameters: generated "
+           "idx never registered, loop terminates, explicit idx kept iff free, helper device found or added once, rejected device leaves no trace.",
+    "C20": "Constants assigned by the program to an enumerated configuration field are declared alternatives of the declared type.",
+}
+
+
 def main():
     for pid, extra in ADD.items():
         if pid in CLAIMED and extra not in CLAIMED[pid]["text"]:
             CLAIMED[pid]["text"] = CLAIMED[pid]["text"] + " Second generation: " + extra
+    for pid, extra in ADD3.items():
+        if pid in CLAIMED and extra not in CLAIMED[pid]["text"]:
+            CLAIMED[pid]["text"] = CLAIMED[pid]["text"] + " Third generation: " + extra
+            if "evaluat" in extra and "evaluation of small repository functions" not in CLAIMED[pid]["tech"]:
+                CLAIMED[pid]["tech"] = CLAIMED[pid]["tech"] + " + evaluation of small repository functions over stand-in objects (engine/tinyexec)"
     props = [json.loads(l) for l in open(os.path.join(HERE, "properties.jsonl"))]
     checks = []
     na = []
